@@ -1266,6 +1266,12 @@ def goa_histories(prs, table, rng):
 
 
 # ============================================================================== the check
+def judged_by_observation(r):
+    """an accessor the static table cannot resolve (a call through a base class with several implementations) and does
+    not predict to create content: it is judged by what reading it does, so it is read in the foreign states too"""
+    return bool(r["unres"]) and r.get("surface") and r["level"] in ("Pure", "AddsEmpty") and not r.get("documented")
+
+
 def foreign_reads(ck, rng, quick, containers, new_creating=()):
     stats = {"properties": 0, "pre_states": 0, "reads": 0, "getter_raised": 0, "unavailable": None}
     try:
@@ -1346,7 +1352,7 @@ def foreign_reads(ck, rng, quick, containers, new_creating=()):
             plan = (core if len(core) <= 10 or not quick else rng.sample(core, 10)) \
                 + rng.sample(attrs, min(len(attrs), 40 if quick else 200)) + rng.sample(sibs, min(len(sibs), 4 if quick else 20))
             rows = [r for r in (table.for_class(type(obj0)) or []) if r["kind"] in ("property", "lazyproperty")
-                    and (table.allowed_static(r) or r["sig"] in new_creating)]
+                    and (table.allowed_static(r) or r["sig"] in new_creating or judged_by_observation(r))]
         except Exception:  # noqa
             continue
         for desc, edits in plan:
@@ -1383,7 +1389,6 @@ def foreign_reads(ck, rng, quick, containers, new_creating=()):
                                  "state only other producers write (%s): %s" % (r["cls"], r["name"], desc, str(tree_delta(before, after))[:400]),
                                  {"entry_point": "%s.%s (accessor)" % (r["cls"], r["name"]), "input": {"kind": k.name, "context": [list(e) for e in edits], "what": desc},
                                   "impl_outcome": str(tree_delta(before, after))[:800]})
-                    break
     # ---- ... and from the object's own content in ANOTHER ORDER: wherever an element below the object (or the object's
     #      element itself) holds two or more children of the same tag (gradient stops, paragraphs, runs, rows, cells, series,
     #      points ...), those children are reversed in place (each stays in a slot the schema gives that tag), as a document
@@ -1418,7 +1423,7 @@ def foreign_reads(ck, rng, quick, containers, new_creating=()):
             if part is None:
                 continue
             rows = [r for r in (table.for_class(type(obj)) or []) if r["kind"] in ("property", "lazyproperty")
-                    and (table.allowed_static(r) or r["sig"] in new_creating)]
+                    and (table.allowed_static(r) or r["sig"] in new_creating or judged_by_observation(r))]
         except Exception:  # noqa
             continue
         stats["order_pre_states"] += 1
@@ -1441,7 +1446,6 @@ def foreign_reads(ck, rng, quick, containers, new_creating=()):
                              % (r["cls"], r["name"], swapped, str(tree_delta(before, after))[:400]),
                              {"entry_point": "%s.%s (accessor)" % (r["cls"], r["name"]), "input": {"kind": k.name, "context": "repeated children reversed"},
                               "impl_outcome": str(tree_delta(before, after))[:800]})
-                break
     return stats
 
 
